@@ -116,6 +116,22 @@ func (x *Exec) bump(arr, idx *Term) *Term {
 	return b.Store(arr, idx, b.Bin("bvadd", b.Select(arr, idx), b.Const(arr.S.E.W, 1)))
 }
 
+// logAccess appends to the ordered access log, building the code exactly as
+// the spec's vsRdCode/vsWrCode/vsInCode/vsOutCode do.
+func (x *Exec) logAccess(st *State, kind uint64, a, v *Term) {
+	if _, ok := x.ld.ghostField["Log"]; !ok {
+		return
+	}
+	b := x.b
+	code := b.Bin("bvor", b.Const(32, kind<<24), b.Bin("bvshl", b.ZExt(32, a), b.Const(32, 8)))
+	if v != nil {
+		code = b.Bin("bvor", code, b.ZExt(32, v))
+	}
+	n := x.ghostGet(st, "LogN")
+	x.ghostSet(st, "Log", b.Store(x.ghostGet(st, "Log"), n, code))
+	x.ghostSet(st, "LogN", b.Bin("bvadd", n, b.Const(8, 1)))
+}
+
 // key24 mirrors the spec's  uint32(a)<<8 | uint32(v)  indexing a [1<<24] array.
 func (x *Exec) key24(a, v *Term) *Term {
 	b := x.b
@@ -151,6 +167,7 @@ func (x *Exec) invoke(recv *IfaceV, m *types.Func, args []Value, st *State, pc *
 			if len(args) == 1 {
 				a := args[0].(*Term)
 				x.ghostSet(st, "Rd", x.bump(x.ghostGet(st, "Rd"), a))
+				x.logAccess(st, 1, a, nil)
 				mem := x.ghostGet(st, "Mem")
 				x.noteSelect(mem, a)
 				return x.sel(mem, a)
@@ -160,12 +177,14 @@ func (x *Exec) invoke(recv *IfaceV, m *types.Func, args []Value, st *State, pc *
 				a, v := args[0].(*Term), args[1].(*Term)
 				x.ghostSet(st, "Mem", x.b.Store(x.ghostGet(st, "Mem"), a, v))
 				x.ghostSet(st, "Wr", x.bump(x.ghostGet(st, "Wr"), x.key24(a, v)))
+				x.logAccess(st, 2, a, v)
 				return nil
 			}
 		case "In":
 			if len(args) == 1 {
 				p := args[0].(*Term)
 				x.ghostSet(st, "PIn", x.bump(x.ghostGet(st, "PIn"), p))
+				x.logAccess(st, 3, p, nil)
 				iv := x.ghostGet(st, "InVal")
 				x.noteSelect(iv, p)
 				return x.sel(iv, p)
@@ -174,6 +193,7 @@ func (x *Exec) invoke(recv *IfaceV, m *types.Func, args []Value, st *State, pc *
 			if len(args) == 2 {
 				p, v := args[0].(*Term), args[1].(*Term)
 				x.ghostSet(st, "POut", x.bump(x.ghostGet(st, "POut"), x.key16(p, v)))
+				x.logAccess(st, 4, p, v)
 				return nil
 			}
 		case "RETNHandle":
